@@ -16,13 +16,37 @@ from .absmodel import ABSENT, T
 
 HEADER = '''"""GENERATED module for stub checks"""
 import functools
-from typing import Any, Dict, List, Optional, Set, Tuple
+import types
+from typing import Any, Dict, Generator, List, Optional, Set, Tuple, Union
 from zfoo import ExtId
 import zutil
 
 
 class Own:
     pass
+
+
+class _AnyEq:
+    """A wildcard default (unittest.mock.ANY, a "not given" sentinel): equal to everything."""
+    def __eq__(self, other):
+        return True
+
+    def __ne__(self, other):
+        return False
+    __hash__ = object.__hash__
+
+
+class _RaisesEq:
+    """A default that refuses comparison (an array-like, a lazy object)."""
+    def __eq__(self, other):
+        raise RuntimeError("no comparison")
+    __hash__ = object.__hash__
+
+    def __bool__(self):
+        raise RuntimeError("no truth value")
+
+
+_ANY_EQ, _RAISES_EQ = _AnyEq(), _RaisesEq()
 
 
 def wraps_deco(fn):
@@ -96,6 +120,8 @@ def func_source(f, ind):
         lines.append(ind + "@functools.cached_property")
     if f.get("wraps"):
         lines.append(ind + "@wraps_deco")
+    if f.get("types_coroutine"):      # a generator-based coroutine: NOT a coroutine function (inspect.iscoroutinefunction is False)
+        lines.append(ind + "@types.coroutine")
     ret = " -> " + f["ret_ann"] if f.get("ret_ann") else ""
     lines.append("%s%sdef %s(%s)%s:" % (ind, "async " if f.get("is_async") else "", f["name"],
                                         render_params(f["params"], recv, f.get("recv_ann"), f.get("recv_posonly", False)), ret))
@@ -138,13 +164,33 @@ _COUNTER = [0]
 _DIR = [None]
 
 
+PKG_INIT = '''"""GENERATED package: its submodules are the modules under test; its own classes are what they use"""
+
+
+class PkgOwn:
+    pass
+
+
+class PkgOuter:
+    class Inner:
+        pass
+'''
+
+
 def load_module(funcs):
     if _DIR[0] is None:
         _DIR[0] = tlc.scratch_dir("mtverif_gen_")
         sys.path.insert(0, _DIR[0])
+        os.makedirs(os.path.join(_DIR[0], "mtgpkg", "sub"))
+        for rel in (("mtgpkg", "__init__.py"), ("mtgpkg", "sub", "__init__.py")):
+            with open(os.path.join(_DIR[0], *rel), "w") as fh:
+                fh.write(PKG_INIT)
     _COUNTER[0] += 1
     name = "mtg_%d_%d" % (os.getpid(), _COUNTER[0])
     path = os.path.join(_DIR[0], name + ".py")
+    if any(f.get("in_package") for f in funcs):      # the module under test is mtgpkg.sub.<name>: two enclosing packages
+        path = os.path.join(_DIR[0], "mtgpkg", "sub", name + ".py")
+        name = "mtgpkg.sub." + name
     with open(path, "w") as fh:
         fh.write(module_source(funcs))
     importlib.invalidate_caches()
@@ -167,7 +213,8 @@ class GenConfig(Config):
         return int(os.environ.get("MTG_K", "0"))
 
     def type_rewriter(self):
-        return NoOpRewriter()
+        from monkeytype.typing import DEFAULT_REWRITER
+        return DEFAULT_REWRITER if os.environ.get("MTG_RW") == "DEFAULT" else NoOpRewriter()
 
 
 CONFIG = GenConfig()
@@ -186,7 +233,7 @@ def stub_via_cli(modname, traces, case):
             fh.write(CLI_CONFIG_SRC)
         importlib.invalidate_caches()
     db = os.path.join(_DIR[0], modname + ".db")
-    os.environ.update(MTG_DB=db, MTG_K=str(case["k"]))
+    os.environ.update(MTG_DB=db, MTG_K=str(case["k"]), MTG_RW=case.get("rw", "NONE"))
     try:
         st = SQLiteStore.make_store(db)
         st.add(traces)
@@ -245,6 +292,10 @@ def run_module_case(case):
             return T("cls", absmodel.TABLE.name((own if t["n"] == "$OWN" else other).Own))
         if t["k"] == "cls" and t["n"] == "$OWN_INNER":
             return T("cls", absmodel.TABLE.name(own.Outer.Inner))
+        if t["k"] == "cls" and t["n"] in ("$PKG", "$PKG_INNER", "$SUBPKG"):
+            import mtgpkg
+            import mtgpkg.sub
+            return T("cls", absmodel.TABLE.name({"$PKG": mtgpkg.PkgOwn, "$PKG_INNER": mtgpkg.PkgOuter.Inner, "$SUBPKG": mtgpkg.sub.PkgOwn}[t["n"]]))
         return dict(t, a=[subst(x, own, other) for x in t["a"]], u=[subst(x, own, other) for x in t["u"]])
     for fs, own, other in ((case["funcs"], mod, mod2), (case.get("other") or [], mod2, mod)):
         for f in fs:
@@ -467,6 +518,26 @@ def gen_c12(tier, seed):
             [{"name": "x", "kind": "kwonly", "default": None}]) if not (fk == "property" and ps)]):
         f = {"name": "po_recv_%d" % n, "container": ["Cls"], "fkind": fk, "params": ps, "recv_posonly": True, "traces": traces_for(ps)}
         cases.append({"funcs": [f], "strategy": "REPLICATE", "k": 0, "family": "c12_positional_only_receiver"})
+    # defaults that answer == in their own way (a wildcard equal to everything, an object that refuses comparison)
+    for n, ps in enumerate([
+            [{"name": "a", "kind": "poskw", "default": "1"}, {"name": "b", "kind": "poskw", "default": "_ANY_EQ"}],
+            [{"name": "a", "kind": "poskw", "default": None}, {"name": "b", "kind": "poskw", "default": "_ANY_EQ"}],
+            [{"name": "a", "kind": "poskw", "default": "_ANY_EQ"}, {"name": "b", "kind": "poskw", "default": "None"}],
+            [{"name": "a", "kind": "posonly", "default": "_ANY_EQ"}], [{"name": "a", "kind": "kwonly", "default": "_ANY_EQ"}],
+            [{"name": "a", "kind": "poskw", "default": "_RAISES_EQ"}], [{"name": "a", "kind": "poskw", "default": None}, {"name": "k", "kind": "kwonly", "default": "_RAISES_EQ"}]]):
+        for fk, cont in (("module", []), ("instance", ["Cls"]), ("static", ["Cls"])):
+            for traced in (True, False):      # the parameter with the odd default traced (it was passed) or left to its default
+                tr = {p["name"]: INT for p in ps if traced or p["default"] in (None, "1", "None")}
+                f = {"name": "odd_default_%d" % n, "container": cont, "fkind": fk, "params": ps, "traces": [{"args": tr, "ret": INT, "yld": None}]}
+                cases.append({"funcs": [f], "strategy": "REPLICATE", "k": 0, "family": "c12_defaults_with_their_own_equality", "via_cli": n % 2 == 0})
+    # generator-based coroutines (@types.coroutine): generator FUNCTIONS, not coroutine functions - never `async def`
+    for fk, cont in (("module", []), ("instance", ["Cls"]), ("static", ["Cls"]), ("class", ["Cls"])):
+        ps = [{"name": "x", "kind": "poskw", "default": None}]
+        f = {"name": "legacy_coro", "container": cont, "fkind": fk, "params": ps, "types_coroutine": True, "is_gen": True,
+             "traces": [{"args": {"x": INT}, "ret": INT, "yld": STR}]}
+        g = {"name": "real_coro", "container": cont, "fkind": fk, "params": ps, "is_async": True, "traces": traces_for(ps)}
+        cases.append({"funcs": [f, g], "strategy": "REPLICATE", "k": 0, "family": "c12_generator_based_coroutine"})
+        cases.append({"funcs": [dict(f), dict(g)], "strategy": "REPLICATE", "k": 0, "family": "c12_generator_based_coroutine", "via_cli": True})
     # functions below an ordinary functools.wraps decorator (and below classmethod / staticmethod), sync and async
     for n, (fk, cont) in enumerate([("module", []), ("instance", ["Cls"]), ("class", ["Cls"]), ("static", ["Cls"])]):
         for is_async in (False, True):
@@ -633,6 +704,30 @@ def gen_c13(tier, seed):
                              "traces": [{"args": dict(targs), "ret": INT, "yld": None}]}
                         cases.append({"funcs": [f], "strategy": strategy, "k": 0, "family": "c13_matrix_other_parameter_kinds",
                                       "via_cli": n % 5 == 0})
+    # several traces of ONE function that differ in one column only (what it yielded / returned / one argument)
+    pa2 = [{"name": "a", "kind": "poskw", "default": None}, {"name": "b", "kind": "poskw", "default": "None"}]
+    BYTES = T("cls", "bytes")
+    for n, (t1, t2) in enumerate([(INT, STR), (STR, NONE), (T("list", "", [INT]), INT), (INT, BYTES)]):
+        variants = [("yld", [{"args": {"a": INT, "b": INT}, "ret": None, "yld": t1}, {"args": {"a": INT, "b": INT}, "ret": None, "yld": t2}], True),
+                    ("ret_of_generator", [{"args": {"a": INT, "b": INT}, "ret": t1, "yld": INT}, {"args": {"a": INT, "b": INT}, "ret": t2, "yld": INT}], True),
+                    ("ret", [{"args": {"a": INT, "b": INT}, "ret": t1, "yld": None}, {"args": {"a": INT, "b": INT}, "ret": t2, "yld": None}], False),
+                    ("arg", [{"args": {"a": t1, "b": INT}, "ret": INT, "yld": None}, {"args": {"a": t2, "b": INT}, "ret": INT, "yld": None}], False)]
+        for label, trs, gen in variants:
+            for via in (False, True):
+                f = {"name": "onecol", "container": [], "fkind": "module", "params": [dict(p) for p in pa2], "ret_ann": None, "is_gen": gen, "traces": trs}
+                cases.append({"funcs": [f], "strategy": "REPLICATE", "k": 0, "family": "c13_traces_differing_in_one_column", "via_cli": via})
+    # source RETURN annotations of the shapes the shipped rewriters look for, through the command line with the DEFAULT rewriter:
+    # a source annotation is kept as written, whatever a rewriter would make of a traced type of that shape
+    for n, ra in enumerate(["Generator[int, None, None]", "Union[Dict[str, int], Dict[str, str]]",
+                            "Union[int, str, float, bytes, complex, bytearray]", "Union[List[Any], List[int]]",
+                            "Union[Tuple[int], Tuple[int, int], Tuple[int, int, int], Tuple[int, int, int, int], Tuple[()], Tuple[int, int, int, int, int]]"]):
+        for pann in (None, ra):
+            f = {"name": "keeps", "container": [], "fkind": "module", "params": [{"name": "a", "kind": "poskw", "default": None, "ann": pann}],
+                 "ret_ann": ra, "is_gen": ra.startswith("Generator"), "traces": [{"args": {"a": INT}, "ret": None if ra.startswith("Generator") else INT,
+                                                                                 "yld": INT if ra.startswith("Generator") else None}]}
+            for strategy in ("REPLICATE", "OMIT"):
+                cases.append({"funcs": [f], "strategy": strategy, "k": 0, "family": "c13_source_annotations_of_rewriter_shapes_default_rewriter",
+                              "via_cli": True, "rw": "DEFAULT"})
     # two functions whose traces arrive interleaved (f, g, f, g ...), the LAST trace of each knowing less than an earlier one
     # (the call raised: no return type; a defaulted argument was not passed)
     for n in range(6 if tier == "quick" else 40):
@@ -735,6 +830,34 @@ def gen_c11(tier, seed, env_text):
             cases.append({"funcs": [use2], "other": [o_mk], "other_first": first, "strategy": "REPLICATE", "k": 0,
                           "family": "c11_parameterless_function_returning_own_class"})
     cases.extend(render_model_cases(tier))
+    # TypedDict-bearing traces of functions that already HAVE some annotation in the source (the annotated position keeps it,
+    # the others get their generated classes - all of them, with everything their fields mention)
+    for n, h in enumerate(holders):
+        outer = T("td", "", [], [T("req", "id", [INT]), T("req", "items", [h(inner)])])
+        deep = T("td", "", [], [T("req", "cfg", [T("td", "", [], [T("req", "limits", [inner2]), T("req", "who", [T("cls", "zutil.A")])])])])
+        for ty in (outer, deep):
+            for strategy in ("REPLICATE", "OMIT"):
+                ps = [{"name": "a", "kind": "poskw", "default": None}, {"name": "b", "kind": "poskw", "default": "None", "ann": "int"}]
+                f = {"name": "func", "container": [], "fkind": "module", "params": ps, "ret_ann": "int" if n % 2 else None,
+                     "traces": [{"args": {"a": ty, "b": INT}, "ret": ty if n % 3 == 0 else INT, "yld": None}]}
+                cases.append({"funcs": [f], "strategy": strategy, "k": 3, "family": "c11_typeddict_next_to_source_annotations"})
+    # modules INSIDE packages using classes of the enclosing packages, of a sibling module and of their own
+    pk = [T("cls", "$PKG"), T("cls", "$SUBPKG"), T("cls", "$PKG_INNER"), T("cls", "zpkg.zutil.B"), T("cls", "$OWN")]
+    for n, (x, y) in enumerate(itertools.permutations(pk, 2)):
+        ps = [{"name": "a", "kind": "poskw", "default": None}, {"name": "b", "kind": "poskw", "default": "None"}]
+        f = {"name": "func", "container": [] if n % 2 else ["Cls"], "fkind": "module" if n % 2 else "instance", "params": ps, "in_package": True,
+             "traces": [{"args": {"a": x, "b": y}, "ret": T("list", "", [x]) if n % 3 else None, "yld": None}]}
+        cases.append({"funcs": [f], "strategy": "REPLICATE", "k": 0, "family": "c11_module_inside_packages"})
+        tdp = T("td", "", [], [T("req", "owner", [x]), T("req", "n", [INT])])
+        f2 = dict(f, traces=[{"args": {"a": tdp, "b": y}, "ret": None, "yld": None}])
+        cases.append({"funcs": [f2], "strategy": "REPLICATE", "k": 3, "family": "c11_module_inside_packages"})
+    # a module whose ONLY need for a typing name comes from one construct (Optional of an `Any` annotation with a None default, ...)
+    for ann, dflt in (("Any", "None"), ("List[Any]", "None"), ("Any", "1"), ("Dict[str, Any]", "None"), ("Tuple[Any, ...]", "None")):
+        ps = [{"name": "a", "kind": "poskw", "default": None}, {"name": "b", "kind": "poskw", "default": dflt, "ann": ann}]
+        f = {"name": "func", "container": [], "fkind": "module", "params": ps, "traces": [{"args": {"a": INT}, "ret": None, "yld": None}]}
+        cases.append({"funcs": [f], "strategy": "REPLICATE", "k": 0, "family": "c11_single_need_for_a_typing_name"})
+        f3 = dict(f, params=[ps[1]], traces=[{"args": {}, "ret": INT, "yld": None}])
+        cases.append({"funcs": [f3], "strategy": "REPLICATE", "k": 0, "family": "c11_single_need_for_a_typing_name", "via_cli": True})
     # a functools.cached_property getter: whatever decorator the stub writes for it must be a name the stub provides
     cp = {"name": "size", "container": ["Cls"], "fkind": "cached", "params": [], "traces": [{"args": {}, "ret": INT, "yld": None}]}
     cases.append({"funcs": [cp], "strategy": "REPLICATE", "k": 0, "family": "c11_functools_cached_property"})
